@@ -33,6 +33,11 @@ EVENTS = [
     # the same faults on the structurally fixed objects, i.e. naming something that may already
     # exist anonymously with a name or symbol that belongs to someone else
     "name_prefix_dup_name", "name_prefix_dup_symbol", "name_dim_dup_name",
+    # a text that reads as prefix + unit ("dam" = deca-metre) is looked up, and then a unit is
+    # declared with exactly that symbol: the declaration must win from then on
+    "lookup_dam", "define_dam",
+    # scales (a unit plus a zero point): valid, zero point of another dimension, taken symbol
+    "scale_define", "scale_wrong_dimension", "scale_dup_symbol",
 ]
 QUICK_EVENTS = EVENTS
 
@@ -189,6 +194,28 @@ class C19Model(Model):
                 m.Prefix(7, 3, name="kilo", symbol="vk")
             elif e == "prefix_dup_symbol":
                 m.Prefix(7, 4, name="verif p4", symbol="k")
+            elif e == "lookup_dam":
+                try:
+                    m.Unit.resolve_symbol("dam")
+                    m.Unit.parse("dam^2")
+                    m.Quantity.parse("3 dam")
+                except KeyError:
+                    pass
+            elif e == "define_dam":
+                u = m.Unit.define(m.Length, "verif dam", "dam")
+                decl = ("unit", "verif dam", "dam", u)
+            elif e == "scale_define":
+                from measured.si import Kelvin
+
+                u = m.Temperature.scale(10 * Kelvin, "verif reaumur", "vRe")
+                decl = ("unit", "verif reaumur", "vRe", u)
+            elif e == "scale_wrong_dimension":
+                u = m.Temperature.scale(5 * Meter, "verif odd scale", "vOd")
+                decl = ("unit", "verif odd scale", "vOd", u)
+            elif e == "scale_dup_symbol":
+                from measured.si import Kelvin
+
+                m.Temperature.scale(3 * Kelvin, "verif scale3", "K")
             elif e == "name_prefix_dup_name":
                 m.Prefix(7, 2, name="kilo", symbol="vk2")
             elif e == "name_prefix_dup_symbol":
@@ -362,7 +389,7 @@ def run(rep, tier):
     core = [e for e in EVENTS if e in (
         "anon_prefix", "anon_unit", "anon_dim", "name_prefix", "name_unit", "name_dim", "define_unit",
         "alias_unit", "define_space_symbol", "derive_dup_symbol", "alias_dup_symbol", "dim_derive_dup_name",
-        "prefix_dup_symbol", "derive_dup_name", "name_prefix_dup_name", "name_prefix_dup_symbol")]
+        "prefix_dup_symbol", "derive_dup_name", "name_prefix_dup_name", "name_prefix_dup_symbol", "lookup_dam", "define_dam")]
     ex2 = HistoryExplorer(w, C19Model(core), max_depth=depth + 2, time_cap=3000 if thorough else 200).run()
     rep.extend(ex2.violations)
     # ---- Part I: import orders
